@@ -38,7 +38,7 @@ class GroupWorld(ClientWorld):
               "auto_commit_every_ms": cfg.get("commit_every_ms", 0), "fetch_max_wait_time": 3000}
         self.mode = cfg.get("processor", "sync")
         self.group = ConsumerGroup(self.client, GROUP, list(cfg.get("topics", ["t"])), self.processor,
-                                   consumer_kwargs=ck, session_timeout_ms=30000,
+                                   consumer_kwargs=ck, session_timeout_ms=cfg.get("session_timeout_ms", 30000),
                                    heartbeat_interval_ms=self.backoffs["heartbeat"],
                                    initial_backoff_ms=self.backoffs["initial"],
                                    retry_backoff_ms=self.backoffs["retry"], fatal_backoff_ms=self.backoffs["fatal"])
@@ -207,6 +207,8 @@ class GroupWorld(ClientWorld):
     # ------------------------------------------------------------------ wire monitor
     def on_frame(self, conn, req):
         p = req.parsed
+        if self.PROP == "C04":
+            self.c04_frame(req)
         if p is None or p["body"] is None:
             return
         api = p["api_key"]
@@ -428,6 +430,16 @@ class GroupWorld(ClientWorld):
             if "join_and_sync" in name:
                 self.rejoin_timers.append((now, delay, self.step, self.last_condition))
                 self.judge_backoff(delay)
+            if self.PROP == "C11" and "_mrtb_timeout" in name:
+                # every request timer is the client's timeout, or max(timeout, 35 s) for a JoinGroup
+                tmo = self.client.timeout
+                joins_now = [w for w in self.wire_log if w[0] == self.step and w[1] == rk.JOIN_GROUP]
+                allowed = {tmo, max(tmo, 35.0)}
+                if not any(abs(delay - a) < 1e-9 for a in allowed):
+                    self.viol("bound", "request-timer-not-timeout-or-join-minimum",
+                              "a request timer of %.3f s was armed (client timeout %.3f s, JoinGroup minimum 35 s, "
+                              "session timeout %r ms)" % (delay, tmo, self.cfg.get("session_timeout_ms", 30000)))
+                self.request_timers = getattr(self, "request_timers", []) + [(self.step, delay, bool(joins_now))]
         kind = label.split(":")[0]
         if kind in ("refuse", "drop", "silent", "bclose") or "err=8" in label:
             self.commit_rejected = True  # a lost or refused commit excuses the missing progress
@@ -484,6 +496,18 @@ class GroupWorld(ClientWorld):
                                   {k: v[-2:] for k, v in self.delivered.items()},
                                   [getattr(c.func, "__qualname__", c.func) for c in self.clock.pending()][:6],
                                   self.trace[-8:]))
+        if self.PROP == "C11":
+            tmo = self.client.timeout
+            for (st, api) in self.wire_log:
+                if api == rk.JOIN_GROUP:
+                    # the JoinGroup's own timer was armed when it was issued (at or before the step it was written)
+                    if not any(abs(d_ - max(tmo, 35.0)) < 1e-9 and s_ <= st
+                               for s_, d_, _j in getattr(self, "request_timers", [])):
+                        self.viol("bound", "join-without-its-minimum-timeout",
+                                  "a JoinGroup was written at step %d but no request timer of max(timeout, 35 s)=%.1f s "
+                                  "was armed for it (timers: %r)" % (st, max(tmo, 35.0),
+                                                                     getattr(self, "request_timers", [])[:8]))
+                        break
         if self.stop_rec is not None and not self.stop_rec[1]:
             self.viol("stop", "stop-deferred-never-fires%s" % ("-horizon" if horizon else ""),
                       "stop() was called at step %d and its Deferred never fired" % self.stop_rec[0])
